@@ -80,7 +80,9 @@ func ParseSelect(statement *sqlparser.Select) (logical.Node, *OutputOptions, err
 		root = logical.NewFilter(filterFormula, root)
 	}
 
-	isGroupBy := false
+	// A GROUP BY clause always means grouping, also when no select expression is an aggregate
+	// (SELECT a FROM t GROUP BY a returns one row per distinct a).
+	isGroupBy := len(statement.GroupBy) > 0
 	for i := range statement.SelectExprs {
 		if aliasedExpr, ok := statement.SelectExprs[i].(*sqlparser.AliasedExpr); ok {
 			if isAggregateExpression(aliasedExpr.Expr) {
@@ -104,8 +106,13 @@ func ParseSelect(statement *sqlparser.Select) (logical.Node, *OutputOptions, err
 		aliases := make([]string, len(statement.SelectExprs))
 	selectExprLoop:
 		for i := range statement.SelectExprs {
-			inExpr := statement.SelectExprs[i].(*sqlparser.AliasedExpr).Expr
-			aliases[i] = statement.SelectExprs[i].(*sqlparser.AliasedExpr).As.String()
+			aliasedExpr, ok := statement.SelectExprs[i].(*sqlparser.AliasedExpr)
+			if !ok {
+				return nil, nil, errors.Errorf("expected aliased expression in grouping select on index %v, got %v %v",
+					i, statement.SelectExprs[i], reflect.TypeOf(statement.SelectExprs[i]))
+			}
+			inExpr := aliasedExpr.Expr
+			aliases[i] = aliasedExpr.As.String()
 			agg, expr, err := ParseAggregate(inExpr)
 			if err == nil {
 				isAggregate[i] = true
